@@ -1388,7 +1388,16 @@ class Epoch(object):
             if year >= 1972:
                 deltasec += 32.184  # Difference between TT and TAI
                 deltasec += 10.0  # Difference between UTC and TAI in 1972
-                deltasec += Epoch.leap_seconds(year, month)
+                leaps = Epoch.leap_seconds(year, month)
+                # The table is indexed by the UTC date: in the first minute
+                # of a month, TT is already one month ahead of UTC
+                if month > 1:
+                    prev = Epoch.leap_seconds(year, month - 1)
+                else:
+                    prev = Epoch.leap_seconds(year - 1, 12)
+                if day - (42.184 + prev) / DAY2SEC < 1.0:
+                    leaps = prev
+                deltasec += leaps
         else:  # Correction is NOT automatic
             if leap_seconds != 0.0:  # We apply provided leap seconds
                 if year >= 1972:
